@@ -94,6 +94,17 @@ Proof.
   - exfalso. apply (Hin i); [left; reflexivity | assumption].
 Qed.
 
+Theorem weight_multiplicity :
+  (forall w ws, combination_weight (w :: ws) = w * combination_weight ws) /\
+  combination_weight [] = 1 /\
+  (forall ws1 w ws2, combination_weight (ws1 ++ w :: ws2) = w * combination_weight (ws1 ++ 1 :: ws2)) /\
+  (forall design c, (forall i, In i c -> nth_error design i <> None) ->
+     sum_list (combo_weights design c) = crossing_size_wo design c).
+Proof.
+  split; [exact combination_weight_cons | split; [exact combination_weight_nil |
+  split; [exact weight_scales_combination | exact crossing_size_is_sum]]].
+Qed.
+
 (** * Desugaring: the hidden derived factor reports exactly the original names *)
 
 Lemma hidden_accepts_iff : forall h n, hidden_accepts h n = true <-> n = h.
